@@ -30,6 +30,38 @@ def bounds(tier):
             'paths': 'all (src, dst) pairs of Inputs/Registers x Outputs/Registers', 'max_freq': 'tech in {130, 65, 45, 250}, ffoverhead in {None, 0, 100, 383}'}
 
 
+def run_timing_history(case, ob, site):
+    """analyses are independent of one another: a default-model analysis gives the same delays before and after an analysis
+    of the same block under a custom (symbolic) delay model"""
+    block = designs.build(case)
+    with stubs(analysis, max=zmax):
+        pb = explore(lambda: analysis.TimingAnalysis(block=block))
+    ok = len(pb) == 1 and pb[0].exc is None and all(isinstance(x, (int, float)) for x in pb[0].result.timing_map.values())
+    if not ob.fact('default-analysis-is-concrete', ok, site + ':first-analysis',
+                   detail='the default-model analysis already depends on delay models of earlier analyses in this process'):
+        return
+    before = pb[0].result
+    funcs, cache = delay_funcs()
+    with stubs(analysis, max=zmax):
+        paths = explore(lambda: analysis.TimingAnalysis(block=block, gate_delay_funcs=funcs))
+
+        def again():
+            ta = analysis.TimingAnalysis(block=block)
+            return ta, ta.max_length()
+        after = explore(again)
+    ob.paths += len(paths) + len(after)
+    for p in after:
+        if p.exc is not None:
+            ob.prove('default-analysis-after-custom-one-accepts-design', z3.Not(p.cond()), [], None, site=site + ':exception')
+            continue
+        ta, ml = p.result
+        goals = [('default-timing-unchanged-by-earlier-custom-analysis:%s' % w.name, zcond(ta.timing_map[w] == before.timing_map[w]),
+                  site + ':timing_map') for w in sorted(before.timing_map, key=lambda w: w.name) if w in ta.timing_map]
+        ob.fact('same-wires-timed', set(ta.timing_map) == set(before.timing_map), site + ':timed-wires')
+        goals.append(('default-max_length-unchanged', zcond(ml == before.max_length()), site + ':max_length'))
+        ob.prove_all(goals, p.pc + [d.t >= 0 for d in cache.values()], None)
+
+
 def cases(tier, seed):
     out = []
     n = 40 if tier == 'quick' else 800
@@ -48,6 +80,8 @@ def cases(tier, seed):
     for tech in (130, 65, 45, 250):
         for ff in (None, 0, 100, 383):
             out.append({'k': 'max_freq', 'tech': tech, 'ff': ff})
+    for name in ('reconv', 'mem_wr_rd', 'diamond3'):
+        out.append({'fam': 'GRAPH', 'kind': name, 'k': 'timing_history', 'wb': 'same'})
     return out
 
 
@@ -522,11 +556,20 @@ def site_of(c):
 
 
 def run_case(case, ob, tier):
-    {'timing': run_timing, 'paths': run_paths, 'max_freq': run_max_freq}[case['k']](case, ob, site_of(case))
+    {'timing': run_timing, 'paths': run_paths, 'max_freq': run_max_freq, 'timing_history': run_timing_history}[case['k']](case, ob, site_of(case))
 
 
 def replay(cex):
     c = cex['case']
+    if c['k'] == 'timing_history':
+        # concrete: default analysis, an analysis with every gate delay 1000, default analysis again
+        block = designs.build(c)
+        before = analysis.TimingAnalysis(block=block)
+        analysis.TimingAnalysis(block=block, gate_delay_funcs={op: (lambda x: -1) if op in 'r@' else (lambda x: 1000) for op in 'w~&|^n+-*<>=xcsrm@'})
+        after = analysis.TimingAnalysis(block=block)
+        bad = ['%s: %r before, %r after an analysis under a custom delay model' % (w.name, before.timing_map[w], after.timing_map.get(w))
+               for w in before.timing_map if after.timing_map.get(w) != before.timing_map[w]]
+        return bool(bad), '\n'.join(sorted(bad)[:6])
     if c['k'] == 'paths':
         block = designs.build(c)
         if cex.get('structural'):
